@@ -48,7 +48,9 @@ OpPool == {
   MkOp("add", <<<<37, 52, 49>>>>, <<>>, IntV(4)), MkOp("add", <<X, <<37, 50, 53>>>>, <<>>, IntV(5)),
   MkOp("add", <<X>>, <<>>, Null), MkOp("test", <<X>>, <<>>, Null), MkOp("replace", <<R, N0>>, <<>>, Null), MkOp("addne", <<W>>, <<>>, Null),
   \* "-0" is not a canonical integer: a member name in an object, nothing in an array
-  MkOp("add", <<O, <<45, 48>>>>, <<>>, IntV(3)), MkOp("add", <<R, <<45, 48>>>>, <<>>, IntV(3)) }
+  MkOp("add", <<O, <<45, 48>>>>, <<>>, IntV(3)), MkOp("add", <<R, <<45, 48>>>>, <<>>, IntV(3)),
+  \* a member name that ends in a blank
+  MkOp("add", <<X, <<107, 109, 32>>>>, <<>>, IntV(6)) }
 
 Docs == { Obj(<<R>>, <<Arr(<<IntV(1), IntV(2)>>)>>),
           Obj(<<X, R>>, <<Obj(<<A>>, <<Arr(<<>>)>>), Arr(<<Obj(<<A>>, <<Arr(<<>>)>>)>>)>>),
